@@ -109,6 +109,9 @@ Inductive line :=
 | LCmSg (id sname text : field)                                       (* CM_ SG_ id sname "text"; *)
 | LVal (id sname : field) (pairs : list (field * field)) (terminated : bool)        (* VAL_ id sname k "label" ... ; *)
 | LMulVal (id sname muxer : field) (ranges : list (field * field)) (terminated : bool)   (* SG_MUL_VAL_ id sname muxer a-b, ... ; *)
+| LRef (id : field)
+      (* BO_TX_BU_ id : ..; / SIG_GROUP_ id ..; / SIG_VALTYPE_ id sig : 1;  - statements that look a frame up INTO THE LOOP VARIABLE
+         `frame`; what they attach (transmitters, signal groups, the float flag) is outside the modelled matrix *)
 | LUnknown (kw : Z).
 
 Definition eq_arbid (a b : arbid) : bool := (fst a =? fst b) && Bool.eqb (snd a) (snd b).
@@ -389,6 +392,14 @@ Definition dbc_step_gen (fixed : bool) (s : dstate) (l : line) : outcome dstate 
   | LCmSg id sn t => step_cmsg s id sn t
   | LVal id sn ps term => step_val fixed s id sn ps term
   | LMulVal id sn m rs term => step_mulval fixed s id sn m rs term
+  | LRef id =>
+      match num_of id with
+      | None => Fail s                                   (* the pattern does not match / int() raises *)
+      | Some i => match from_compound_integer i with
+                  | None => Fail s
+                  | Some key => Ok (with_cur s (find_frame (frames s) key))   (* frame = get_frame_by_id(..) *)
+                  end
+      end
   | LUnknown _ => Ok s
   end.
 Definition dbc_step := dbc_step_gen true.         (* the reader with fixes/C20_dbc_reader.patch *)
@@ -444,6 +455,7 @@ Definition dbc_malformed (l : line) : bool :=
   | LVal id sn ps term => negb term || not_num id || is_bad sn || negb (completed ps)
   | LMulVal id sn m rs term => negb term || not_num id || is_bad sn || is_bad m
                                || match parse_ranges rs with Some _ => false | None => true end
+  | LRef id => not_num id
   | LUnknown _ => true
   end.
 Definition is_sg (l : line) : bool := match l with LSg _ _ _ _ _ _ _ _ => true | _ => false end.
@@ -630,3 +642,13 @@ Definition sym_malformed (l : sline) : bool :=
 Definition sym_all_frames (s : ystate) : list yframe := y_done s ++ match y_cur s with Some f => [f] | None => [] end.
 Definition sym_objs (s : ystate) (o : Z * ysig) : Prop :=
   exists f, In f (sym_all_frames s) /\ yf_name f = fst o /\ In (snd o) (yf_signals f).
+
+(* invariant of the repaired SYM reader: the pending frame carries the current frame name, and if it has mux names it has its
+   <frame>_MUX signal (so the end-of-file step cannot raise) *)
+Definition mux_inv (s : ystate) : Prop :=
+  match y_cur s with
+  | None => True
+  | Some f => yf_name f = y_fname s /\
+              (yf_muxnames f = [] \/ yhas (yf_signals f) (mux_signal_name (yf_name f)) = true)
+  end.
+Fixpoint add_errors (n : nat) (s : ystate) : ystate := match n with O => s | S k => record_error (add_errors k s) end.
